@@ -476,6 +476,10 @@ def forbidden_categories(case: dict, obs: dict, snap: dict[str, str], roots: lis
         if any(pp.match(pat) for pat in pats):
             ex.add(p)
     cats["exclude-match"] = ex
+    # the contents of an excluded directory that is reached from a given path (a path given explicitly *inside* an
+    # excluded directory is walked from there: its ancestors are not looked at)
+    cats["below-excluded-dir"] = {p for p in snap for r in roots if under(p, r)
+                                  for e in ex if snap.get(e) == "d" and p.startswith(e + "/") and under(e, r)}
     cats["outside-paths"] = {p for p in snap if not any(under(p, r) for r in roots)}
     cats["directory-node-match"] = directory_node_matches(case, snap, roots)
     return cats
@@ -927,3 +931,14 @@ def campaign(ctx) -> None:
 
     # 3. pmatch
     pmatch_campaign(ctx, max_len=3 if not ctx.thorough else 4, n_random=ctx.scale(300, 3000))
+
+    # 4. self-test of the oracle (DESIGN §3): a witness recorded as `known` must still be flagged. Only decisive when
+    #    nothing else is wrong (a violation / disagreement / broken proof is reported by the pipeline instead).
+    known_ids = {e["id"] for e in common.load_known("C11") if e.get("status") == "known"}
+    fresh = [v for v in ctx.violations if not v["finding"]]
+    proof_ok = ctx.lean is None or getattr(ctx.lean, "proof_ok", True)
+    if not fresh and not ctx.disagreements and proof_ok:
+        for fid in ("F9", "F16"):
+            if fid in known_ids and not ctx.extra.get(f"selftest_{fid}_witness_detected"):
+                raise common.InfraError(f"known finding {fid}: its corpus witness is no longer flagged by the oracle - either the oracle "
+                                        f"is broken or the defect was repaired (then record it as fixed in known_findings.json)")
